@@ -379,6 +379,9 @@ func (fgen *funcGen) irInvokeTerm(new ir.Terminator, old *ast.InvokeTerm) error 
 	if err != nil {
 		return errors.WithStack(err)
 	}
+	if err := checkCalleeSig(invokee, sig); err != nil {
+		return errors.WithStack(err)
+	}
 	term.Invokee = invokee
 	// Normal control flow return point.
 	normalRetTarget, err := fgen.irBlock(old.NormalRetTarget())
@@ -482,6 +485,9 @@ func (fgen *funcGen) irCallBrTerm(new ir.Terminator, old *ast.CallBrTerm) error 
 	}
 	callee, err := fgen.irValue(ptrToSig, old.Callee())
 	if err != nil {
+		return errors.WithStack(err)
+	}
+	if err := checkCalleeSig(callee, sig); err != nil {
 		return errors.WithStack(err)
 	}
 	term.Callee = callee
